@@ -12,7 +12,9 @@ CONSTANTS
   MaxForkRules = 1000
   MaxCommits = 1000
   MaxBaseAdv = 1000
-  OpSet = {"BaseAdvance"}
+  MaxMerge = 1000
+  PairOps = {}
+  OpSet = {"BaseAdvance", "MergeBase"}
   ForkFdis = FALSE
   TombRename = TRUE
   MatchMode = "any"
